@@ -86,3 +86,23 @@ package gocql
 //@   ensures[@general] result1 == nil ==> hexcount(input, len(input)) == 32
 //@   ensures[@general] result1 == nil ==> forall(k, 0 <= k && k < len(input), ishex(input[k]) || input[k] == '-')
 //@   ensures[@canon] result1 == nil && all(i, 0, 16, result0[i] == hexval(input[uuid_off(i)])<<4 | hexval(input[uuid_off(i)+1]))
+
+//@ func RandomUUID
+//@   props C19
+//@   ensures result1 == nil ==> result0[6]&0xF0 == 0x40 && result0[8]&0xC0 == 0x80
+
+//@ func UUIDFromBytes
+//@   props C19 C04
+//@   ensures (result1 == nil) == (len(input) == 16)
+//@   ensures len(input) == 16 ==> all(i, 0, 16, result0[i] == input[i])
+
+// package-level minNode/maxNode are set by their initialisers (assumed here).
+//@ func MinTimeUUID
+//@   props C19
+//@   assume len(minNode) == 6 && all(i, 0, 6, minNode[i] == 0x80)
+//@   ensures result[6]&0xF0 == 0x10 && result[8] == 0x80 && result[9] == 0x80 && all(i, 10, 16, result[i] == 0x80)
+
+//@ func MaxTimeUUID
+//@   props C19
+//@   assume len(maxNode) == 6 && all(i, 0, 6, maxNode[i] == 0x7f)
+//@   ensures result[6]&0xF0 == 0x10 && result[8] == 0xBF && result[9] == 0x7f && all(i, 10, 16, result[i] == 0x7f)
